@@ -702,6 +702,12 @@ class Engine:
     def goto(s, p, f, label):
         n = f.visits.get(label, 0) + 1
         f.visits[label] = n
+        if s.phase == 'threads' and getattr(s, 'opts', {}).get('loop_reset') == '1':
+            # CBMC-style: the unwinding counter of an inner loop restarts whenever the loop is entered from outside (an inlined
+            # retry loop inside an outer loop otherwise uses up its bound across the outer iterations)
+            _, _, loops = s.cfg_info(f.fn)
+            if label in loops and f.block not in loops[label]:
+                f.symv[label] = 0; f.symexit.discard(label)
         bound = s.loop_bound if s.phase != 'init' else 100000
         if s.is_final: bound = 64
         if s.loop_bounds and s.phase != 'init':
